@@ -168,7 +168,7 @@ PROPS["C10"] = {
     "theorem_modules": ["Sidetree.Props.C10"],
     "prescribes": "Sidetree.Composer.applyPatches with Sidetree.JsonPatch.Lib (Props.C10); RFC 6902 side: Sidetree.JsonPatch.Rfc.applyOp",
     "obligations": [
-        {"name": "C10_composerShape", "facts": ["composerDispatch", "applyJSONShape"]},
+        {"name": "C10_composerShape", "facts": ["composerDispatch", "applyJSONShape"]}, {"name": "Shape_Composer", "facts": "module:Composer"},
     ],
     "streams": [{"gen": "C10", "quick": 5000, "thorough": 250000}],
     "compare": _strip({"deviation"}),
@@ -195,7 +195,7 @@ PROPS["C11"] = {
     "prescribes": "Sidetree.Props.C11.validated_preserves_protected",
     "obligations": [
         {"name": "C11_ietfValidator", "facts": ["protectedPrefixes", "inspectedMembers", "ietfConds", "pointerConds"]},
-        {"name": "C10_composerShape", "facts": ["composerDispatch", "applyJSONShape"]},
+        {"name": "C10_composerShape", "facts": ["composerDispatch", "applyJSONShape"]}, {"name": "Shape_Composer", "facts": "module:Composer"},
     ],
     "streams": [{"gen": "C11", "quick": 6000, "thorough": 300000}],
     "property_check": lambda r: "protect/validated-patch-changed-protected-member" if r["impl"].get("protected_changed") else None,
@@ -652,6 +652,93 @@ PROPS["C08"] = {
                   "operation (anchored_create/update/recover/deactivate) and the applier returns the same outcome on it as on the original for every state (anchored_applies_alike).",
     "level_note": "Trusted: Lean kernel; extractor; harness (table signer, did-go document construction); kms-go / did-go JSON marshalling of keys and endpoints is taken as given (the "
                   "stream would show a difference).",
+    "trusted": _APPLY_TRUST,
+}
+
+
+def _drop_keys(v, keys):
+    if isinstance(v, dict):
+        return {k: _drop_keys(x, keys) for k, x in v.items() if k not in keys}
+    if isinstance(v, list):
+        return [_drop_keys(x, keys) for x in v]
+    return v
+
+
+def _cmp_c19(kind, case, impl, model):
+    from check import canon, first_diff
+    impl = _drop_keys(impl, {"how", "detail", "panic", "deviation"})
+    model = _drop_keys(model, {"deviation", "why"})
+    if isinstance(impl, dict) and impl.get("class") == "killed" and isinstance(model, dict) and model.get("class") == "killed":
+        return None
+    if kind == "transform":
+        return _cmp_transform(kind, case, impl, model)
+    a, b = canon(impl), canon(model)
+    return None if a == b else first_diff(a, b)
+
+
+def _died(v):
+    """'panic' / 'killed' anywhere in an answer of the implementation"""
+    if isinstance(v, dict):
+        if v.get("class") in ("panic", "killed"):
+            return v["class"]
+        for x in v.values():
+            d = _died(x)
+            if d:
+                return d
+    elif isinstance(v, list):
+        for x in v:
+            d = _died(x)
+            if d:
+                return d
+    elif v in ("panic", "killed"):
+        return v
+    return None
+
+
+def _c19_property(r):
+    d = _died(r["impl"])
+    if not d:
+        return None
+    why = ""
+    if isinstance(r["model"], dict) and _died(r["model"]) == "killed":
+        why = "/huge-array-index"      # the model predicts this death: an array index beyond JsonPatch.blowupIndex
+    return r["kind"] + "/" + d + why
+
+
+PROPS["C19"] = {
+    "theorem_modules": ["Sidetree.Props.C19"],
+    "prescribes": "every model entry point is a total function into a result type whose hazard outcomes (panic, blowup) are explicit; Props.C19 characterises when they occur",
+    "obligations": [{"name": "C19_recoverGuard", "facts": ["recoverGuard"]}, {"name": "Shape_Composer", "facts": "module:Composer"},
+                    {"name": "Shape_Did", "facts": "module:Did"}] + _PARSER_OBL + _APPLIER_OBL + _JWS_OBL + _KEYS_OBL +
+                   [{"name": "Shape_Transformer", "facts": "module:Transformer"}],
+    "streams": [{"gen": "C19compose", "quick": 3000, "thorough": 200000}, {"gen": "C19transform", "quick": 2000, "thorough": 100000},
+                {"gen": "C07", "quick": 1500, "thorough": 60000}, {"gen": "C01", "quick": 600, "thorough": 30000}, {"gen": "C02", "quick": 600, "thorough": 30000},
+                {"gen": "C13", "quick": 1500, "thorough": 60000}, {"gen": "C11", "quick": 1000, "thorough": 40000}, {"gen": "C14", "quick": 600, "thorough": 30000},
+                {"gen": "C15", "quick": 1000, "thorough": 40000}, {"gen": "C16parse", "quick": 800, "thorough": 30000}, {"gen": "C17", "quick": 1000, "thorough": 40000},
+                {"gen": "C05", "quick": 1500, "thorough": 60000}, {"gen": "C04chain", "quick": 300, "thorough": 10000}],
+    "compare": _cmp_c19,
+    "property_check": _c19_property,
+    "label": lambda r: r["kind"] + "/" + str((r["impl"].get("class") or r["impl"].get("validate") or r["impl"].get("parse") or "answered") if isinstance(r["impl"], dict) else "answered"),
+    "nontrivial": lambda r: True,
+    "shape": lambda r: r["case"],
+    "rule": "hostile inputs to every entry point, each answered by the implementation in-process under recover() (a Go panic is reported as such) and in a child process with an address "
+            "space limit (stack exhaustion, out-of-memory and non-termination kill the child; the death is attributed to the case and the rest re-run): ApplyPatches on patches that never "
+            "saw the validator (every op kind with pointers chosen for the library's corner cases: other spellings of one location, targets below their own source, negative / huge / "
+            "non-numeric indices, escapes, empty tokens, pointers without a leading slash; wrong JSON types at every position of valid patches; unknown actions); TransformDocument on "
+            "documents with a wrong type at every position; plus the malformed and tampered streams of parsing (C07), application (C01, C02), patch validation (C13, C11), document "
+            "round trip (C14), JWS / JWK (C15, C16), long-form DIDs and ProcessOperation (C17), canonicalization (C05) and the commitment getters (C04). Compared with the model, whose "
+            "hazard outcomes are explicit; any panic or death of the implementation is a violation whatever the model says.",
+    "technique": "Lean 4: total model functions with explicit hazard outcomes, theorems characterising when the composer can reach them + go/ast obligations (recover guard, composer "
+                 "guard) + differential correspondence on hostile streams with crash attribution",
+    "level_text": "Every entry point of the model is a total Lean function (structural recursion or explicit fuel; accepted by Lean's termination checker) whose result type makes the "
+                  "library's hazards explicit (R.panic: a Go panic inside the patch library, recovered by the composer; R.blowup: an unrecoverable death). Proved in Lean: the patch "
+                  "library's copy makes a document contain itself exactly when the walk to the target passes through the source node (copyMakesCycle), and whenever it does the "
+                  "composer's guard holds (guard_excludes_cycle: pointers compared the way the library resolves them - ignoring what precedes the first '/', unescaping, and reading "
+                  "indices with Atoi - for every document and pointer pair); behind the guard the only way one library call, and hence a whole ietf-json-patch, can be fatal is an "
+                  "array index at or beyond blowupIndex as the last token of a target (applyGuarded_blowup, applyAll_blowup) - the recorded finding. The correspondence on hostile "
+                  "streams ties the Go code to these total functions: a panic or death where the model answers is a violation.",
+    "level_note": "partial: absence of panics in the Go code is established by correspondence with a total model on hostile streams, not by a theorem about Go; memory safety and stack depth "
+                  "of the Go runtime are outside any Lean model. Trusted: Lean kernel; extractor; harness crash attribution.",
     "trusted": _APPLY_TRUST,
 }
 
